@@ -200,9 +200,12 @@ theorem c06_await {n : Nat} {a : Bool} {s : State} (h : Reachable n a s) {i : Na
     · simp only [step, hi, awaitObj, hc, if_false]
       by_cases ha : s.active = true
       · simp only [ha, if_true]
-        obtain ⟨-, h1, g1, g2, hqq, hr, -, -, -⟩ := awaitQueue_spec I ha hi hc me
+        obtain ⟨-, h1, g1, g2, hqq, hr, -, -, -, -⟩ := awaitQueue_spec I ha hi hc me
         have hrest : me ∉ handlesOf s { o with cf := o.cf - 2 } := by
           intro hm; apply hme; rw [h1]; simp [hm]
+        have hpv : ¬ popValue s o = me := by
+          intro e; apply hme; rw [h1, e]; simp
+        simp only [if_neg hpv]
         have hE : awaitExtra s o me = [me] := by simp [awaitExtra, hrest]
         rw [hE] at hqq
         generalize hY : resumeAll (awaitQueue s i o me) [popValue s o] = Y at g1 g2 hqq hr
@@ -220,7 +223,7 @@ theorem c06_await {n : Nat} {a : Bool} {s : State} (h : Reachable n a s) {i : Na
       · have ha' : s.active = false := by simpa using ha
         simp only [ha', Bool.false_eq_true, if_false]
         have hi' : ({ s with active := true } : State).obj i = some o := hi
-        obtain ⟨-, h1, g1, g2, hqq, hr, -, -, -⟩ := awaitQueue_spec (inv_active I) rfl hi' hc me
+        obtain ⟨-, h1, g1, g2, hqq, hr, -, -, -, -⟩ := awaitQueue_spec (inv_active I) rfl hi' hc me
         have h1' : handles s i = handlesOf s { o with cf := o.cf - 2 } ++ [popValue s o] := h1
         have hrest : me ∉ handlesOf s { o with cf := o.cf - 2 } := by
           intro hm; apply hme; rw [h1']; simp [hm]
@@ -239,6 +242,93 @@ theorem c06_await {n : Nat} {a : Bool} {s : State} (h : Reachable n a s) {i : Na
           simp
         · rw [handles_of_eq (s' := { flushAll Y with active := false }) (s := Y) rfl rfl]; exact g1
         · intro k hk; rw [handles_of_eq (s' := { flushAll Y with active := false }) (s := Y) rfl rfl]; exact g2 k hk
+
+/-- `co_await sp` by a coroutine whose **own handle is among the handles, but not the last one** (the yield idiom
+`sp = co_await self(); sp << others…; co_await sp;`).  `await_suspend` recognises the own handle and does not push
+the awaiting coroutine a second time: nothing new is handed in (`given` unchanged), and the multiset
+"resumed ++ still queued" grows by exactly the handles of the suspend point — the own handle is queued, and
+resumed, exactly once.  Precisely: the last handle runs first, then what was queued, then the remaining handles up
+to and including the (first) own handle, at which point `me` continues; in coroutine mode the handles behind the
+own one are still queued, in that order; in normal mode (the queue is flushed before `co_await` returns to plain
+code) all of them have run.  (Own handle *last* is outside the contract: the unchanged code then transfers to `me`
+and queues it as well.) -/
+theorem c06_await_own_handle {n : Nat} {a : Bool} {s : State} (h : Reachable n a s) {i : Nat} {o : Obj}
+    (hi : s.obj i = some o) (me : Ptr) (hq : me ∉ s.queue) :
+    ∀ rest last, handles s i = rest ++ [last] → me ∈ rest → last ≠ me →
+      (step s (Op.await i me)).1.given = s.given
+      ∧ handles (step s (Op.await i me)).1 i = []
+      ∧ (∀ k, k ≠ i → handles (step s (Op.await i me)).1 k = handles s k)
+      ∧ resumed (step s (Op.await i me)).1 ++ (step s (Op.await i me)).1.queue
+          = resumed s ++ [last] ++ s.queue ++ rest
+      ∧ (s.active = true →
+          resumed (step s (Op.await i me)).1 = resumed s ++ [last] ++ s.queue ++ rest.take (rest.idxOf me + 1)
+          ∧ (step s (Op.await i me)).1.queue = rest.drop (rest.idxOf me + 1))
+      ∧ (s.active = false →
+          resumed (step s (Op.await i me)).1 = resumed s ++ [last] ++ rest
+          ∧ (step s (Op.await i me)).1.queue = []) := by
+  have I := reachable_inv h
+  intro rest last hdec hmem hlast
+  have hc : o.cf / 2 ≠ 0 := by
+    intro hc; have := handles_of_count_zero hi hc; rw [this] at hdec; simp at hdec
+  simp only [step, hi, awaitObj, hc, if_false]
+  by_cases ha : s.active = true
+  · simp only [ha, if_true]
+    obtain ⟨-, h1, g1, g2, hqq, hr, -, -, -, hgv⟩ := awaitQueue_spec I ha hi hc me
+    -- the decomposition is the model's own: rest = handles after the pop, last = the popped value
+    have hd : rest = handlesOf s { o with cf := o.cf - 2 } ∧ last = popValue s o := by
+      rw [h1] at hdec
+      have := List.append_inj' hdec.symm (by simp)
+      exact ⟨this.1, by simpa using this.2⟩
+    obtain ⟨hd1, hd2⟩ := hd
+    have hE : awaitExtra s o me = [] := by simp [awaitExtra, ← hd1, hmem]
+    rw [hE, List.append_nil, ← hd1] at hqq
+    rw [hE, List.append_nil] at hgv
+    rw [← hd2] at hr ⊢
+    simp only [if_neg hlast]
+    generalize hY : resumeAll (awaitQueue s i o me) [last] = Y at g1 g2 hqq hr hgv
+    have hidx : Y.queue.idxOf me + 1 = s.queue.length + (rest.idxOf me + 1) := by
+      rw [hqq, idxOf_append_right _ _ _ hq]; omega
+    have htake : Y.queue.take (Y.queue.idxOf me + 1) = s.queue ++ rest.take (rest.idxOf me + 1) := by
+      rw [hidx, hqq, take_append_len]
+    have hdrop : Y.queue.drop (Y.queue.idxOf me + 1) = rest.drop (rest.idxOf me + 1) := by
+      rw [hidx, hqq, drop_append_len]
+    have hres : resumed (flushUntil Y me) = resumed s ++ [last] ++ s.queue ++ rest.take (rest.idxOf me + 1) := by
+      rw [resumed_flushUntil, htake, hr]; simp
+    have hque : (flushUntil Y me).queue = rest.drop (rest.idxOf me + 1) := hdrop
+    refine ⟨hgv, ?_, ?_, ?_, fun _ => ⟨hres, hque⟩, fun hf => by cases hf⟩
+    · rw [handles_of_eq (s' := flushUntil Y me) (s := Y) rfl rfl]; exact g1
+    · intro k hk; rw [handles_of_eq (s' := flushUntil Y me) (s := Y) rfl rfl]; exact g2 k hk
+    · rw [hres, hque]
+      simp only [List.append_assoc, List.take_append_drop]
+  · have ha' : s.active = false := by simpa using ha
+    simp only [ha', Bool.false_eq_true, if_false]
+    have hi' : ({ s with active := true } : State).obj i = some o := hi
+    obtain ⟨-, h1, g1, g2, hqq, hr, -, -, -, hgv⟩ := awaitQueue_spec (inv_active I) rfl hi' hc me
+    have h1' : handles s i = handlesOf s { o with cf := o.cf - 2 } ++ [popValue s o] := h1
+    have hd : rest = handlesOf s { o with cf := o.cf - 2 } ∧ last = popValue s o := by
+      rw [h1'] at hdec
+      have := List.append_inj' hdec.symm (by simp)
+      exact ⟨this.1, by simpa using this.2⟩
+    obtain ⟨hd1, hd2⟩ := hd
+    have hE : awaitExtra { s with active := true } o me = [] := by
+      have : handlesOf { s with active := true } { o with cf := o.cf - 2 } = handlesOf s { o with cf := o.cf - 2 } := rfl
+      simp [awaitExtra, this, ← hd1, hmem]
+    have hpv : popValue { s with active := true } o = popValue s o := rfl
+    have hq0 : s.queue = [] := I.idle ha'
+    rw [hE, List.append_nil] at hqq hgv
+    rw [hpv] at g1 g2 hqq hr hgv
+    have hqq' : (resumeAll (awaitQueue { s with active := true } i o me) [popValue s o]).queue = rest := by
+      rw [hqq, hd1]; show s.queue ++ handlesOf s { o with cf := o.cf - 2 } = _; rw [hq0]; rfl
+    have hr' : resumed (resumeAll (awaitQueue { s with active := true } i o me) [popValue s o]) = resumed s ++ [last] := by
+      rw [hr, hd2]; rfl
+    generalize hY : resumeAll (awaitQueue { s with active := true } i o me) [popValue s o] = Y at g1 g2 hqq' hr' hgv ⊢
+    have hres : resumed { flushAll Y with active := false } = resumed s ++ [last] ++ rest := by
+      have e : resumed { flushAll Y with active := false } = resumed Y ++ Y.queue := resumed_flushAll Y
+      rw [e, hr', hqq']
+    refine ⟨hgv, ?_, ?_, ?_, fun hf => by cases hf, fun _ => ⟨hres, rfl⟩⟩
+    · rw [handles_of_eq (s' := { flushAll Y with active := false }) (s := Y) rfl rfl]; exact g1
+    · intro k hk; rw [handles_of_eq (s' := { flushAll Y with active := false }) (s := Y) rfl rfl]; exact g2 k hk
+    · rw [hres]; show _ ++ [] = _; rw [hq0]; simp
 
 /-- **A moved-from or emptied suspend point resumes nothing**: whatever consumes an object that holds no handle
 (`clear`, destructor, `co_await`; for `pop` see `c06_pop`) resumes nothing and enqueues nothing -/
